@@ -26,6 +26,7 @@ mod xsim;
 mod lsim;
 mod mon;
 mod prng;
+mod rsim;
 mod runner;
 
 use common::Tier;
